@@ -108,6 +108,11 @@ def requireLastList (s : Store) (n : Nat) (cs : Bool) : List String → Store ×
     let r2 := requireLastList r.1 n cs ls
     (r2.1, r.2 :: r2.2)
 
+/-- `purge_taxon_namespace()`: `to_remove = [t for t in ns if t not in self.poll_taxa()]`, each removed; the members that stay keep
+their order -/
+def purge (s : Store) (n : Nat) (keep : List Nat) : Store :=
+  { s with ns := upd s.ns n { s.ns n with members := (mem s n).filter (fun x => keep.contains x) } }
+
 /-- a new namespace object with the given case flag; returns its id -/
 def newNs (s : Store) (cs : Bool) : Store × Nat :=
   ({ s with ns := upd s.ns s.nNs { s.ns s.nNs with cs := cs }, nNs := s.nNs + 1 }, s.nNs)
@@ -278,6 +283,17 @@ def migrateTl (s : Store) (l n : Nat) (unify : Bool) (memo : Memo) : Store × Me
   let s1 := { s with tl := upd s.tl l { (s.tl l) with ns := n } }
   migrateTrees s1 n unify memo (s.tl l).trees
 
+/-- `tl.taxon_namespace = ns; tl.update_taxon_namespace()` (plain attribute assignment, then `TreeList.update_taxon_namespace`:
+`for tree in self._trees: tree._taxon_namespace = self.taxon_namespace; tree.update_taxon_namespace()`): every tree is re-bound and
+its taxon objects are added as they are -/
+def addTrees (s : Store) (n : Nat) : List Nat → Store
+  | [] => s
+  | t :: ts => addTrees (addTree s t n) n ts
+
+def addTl (s : Store) (l n : Nat) : Store :=
+  let s1 := { s with tl := upd s.tl l { (s.tl l) with ns := n } }
+  addTrees s1 n (s.tl l).trees
+
 /-! ## matrices -/
 
 def allocMat (s : Store) (v : Mat) : Store × Nat :=
@@ -286,6 +302,11 @@ def allocMat (s : Store) (v : Mat) : Store × Nat :=
 def migrateMat (s : Store) (m n : Nat) (unify : Bool) (memo : Memo) : Store × Memo × Bool :=
   let r := mapKeys s n unify memo (s.mat m).keys (s.mat m).keys
   ({ r.1 with mat := upd r.1.mat m { ns := n, keys := r.2.2.1 } }, r.2.1, r.2.2.2)
+
+/-- `m.taxon_namespace = ns; m.update_taxon_namespace()`: every sequence key is added (as the object it is) to `n` -/
+def addMat (s : Store) (m n : Nat) : Store :=
+  let s1 := (s.mat m).keys.foldl (fun acc x => addMember acc n x) s
+  { s1 with mat := upd s1.mat m { (s.mat m) with ns := n } }
 
 def dedup : List Nat → List Nat
   | [] => []
@@ -416,6 +437,20 @@ inductive Op where
   | mget (n : Nat) (last : Bool) (pre rows : List String)             -- `CharacterMatrix.get(..., taxon_namespace=n)`
   | chain (gs : List Mig)                               -- migrations sharing one caller-supplied memo
   | taadd (n t : Nat)                                   -- `TreeArray(taxon_namespace=n).add_tree(t)`: holds no tree, refuses a foreign one
+  /- the `taxon_namespace` property setter (`TaxonNamespaceAssociated._set_taxon_namespace`): with
+     `automigrate_taxon_namespace_on_assignment` (`auto`) it is `migrate_taxon_namespace(ns)` unless `ns` is the object already bound;
+     without, a plain re-binding, here followed by `update_taxon_namespace()` (the 'add' strategy as a caller spells it) -/
+  | tassign (t n : Nat) (auto : Bool)
+  | lassign (l n : Nat) (auto : Bool)
+  | massign (m n : Nat) (auto : Bool)
+  /- `CharacterMatrix.add_sequences / update_sequences / extend_matrix / extend_sequences(is_add_new_sequences=True)` (`addNew`) and
+     `replace_sequences / extend_sequences` (not `addNew`) with another matrix: refused unless both refer to one namespace object -/
+  | mcomb (m m2 : Nat) (addNew : Bool)
+  /- `purge_taxon_namespace()` of a tree / tree list / matrix: members of its namespace it does not refer to (`poll_taxa`) are removed.
+     Documented to look at `self` only, so it is outside the ownership domain `valid` (see `purge_closed` for when it keeps closure) -/
+  | tpurge (t : Nat)
+  | lpurge (l : Nat)
+  | mpurge (m : Nat)
 deriving Repr
 
 inductive Status where
@@ -566,6 +601,22 @@ def step (s : Store) : Op → Store × Status
         setTrees r.1 a.2 r.2
     (s3, .ok)
   | .taadd n t => (s, if (s.tree t).ns = n then .ok else .nsIdentity)
+  | .tassign t n true => if (s.tree t).ns = n then (s, .ok) else ((migrateTree s t n true []).1, .ok)
+  | .tassign t n false => (addTree s t n, .ok)
+  | .lassign l n true => if (s.tl l).ns = n then (s, .ok) else ((migrateTl s l n true []).1, .ok)
+  | .lassign l n false => (addTl s l n, .ok)
+  | .massign m n true =>
+    if (s.mat m).ns = n then (s, .ok) else
+    let r := migrateMat s m n true []
+    (r.1, if r.2.2 then .ok else .conflict)
+  | .massign m n false => (addMat s m n, .ok)
+  | .mcomb m m2 addNew =>
+    if (s.mat m2).ns = (s.mat m).ns then
+      (if addNew then { s with mat := upd s.mat m { (s.mat m) with keys := mergeKeys (s.mat m).keys (s.mat m2).keys } } else s, .ok)
+    else (s, .nsIdentity)
+  | .tpurge t => (purge s (s.tree t).ns ((s.tree t).taxa.filterMap id), .ok)
+  | .lpurge l => (purge s (s.tl l).ns ((s.tl l).trees.flatMap (fun t => (s.tree t).taxa.filterMap id)), .ok)
+  | .mpurge m => (purge s (s.mat m).ns (s.mat m).keys, .ok)
   | .chain gs => ((chain s [] gs).1, if (chain s [] gs).2 then .ok else .conflict)
   | .readx l pre docs => (readInto s l pre docs, .ok)
   | .tlget n pre docs => (readInto (allocTl s n).1 (allocTl s n).2 pre docs, .ok)
@@ -632,6 +683,13 @@ def idsOk (s : Store) : Op → Bool
   | .dsattach d n => decide (d < s.nDs) && decide (n < s.nNs)
   | .dsunify d n => decide (d < s.nDs) && onsOk s n
   | .taadd n t => decide (n < s.nNs) && decide (t < s.nTree)
+  | .tassign t n _ => decide (t < s.nTree) && decide (n < s.nNs)
+  | .lassign l n _ => decide (l < s.nTl) && decide (n < s.nNs)
+  | .massign m n _ => decide (m < s.nMat) && decide (n < s.nNs)
+  | .mcomb m m2 _ => decide (m < s.nMat) && decide (m2 < s.nMat)
+  | .tpurge t => decide (t < s.nTree)
+  | .lpurge l => decide (l < s.nTl)
+  | .mpurge m => decide (m < s.nMat)
   | .chain gs => gs.all (fun g => decide (g.ns < s.nNs) && (match g.kind with
       | .tree => decide (g.obj < s.nTree) | .list => decide (g.obj < s.nTl) | .mat => decide (g.obj < s.nMat)))
   | .readx l _ _ => decide (l < s.nTl)
@@ -689,6 +747,10 @@ def owner (s : Store) : Op → Bool
   | .extend l src => srcOk s (s.tl l).ns (some l) src
   | .add l src => srcOk s (s.tl l).ns none src
   | .tmig t n _ => rebindOk s t n none
+  | .tpurge _ | .lpurge _ | .mpurge _ => false
+  | .tassign t n _ => rebindOk s t n none
+  | .lassign l n _ => tlRebindOk s l n none
+  | .massign m n auto => (s.mat m).ns == n || (matFreeOfDs s m n none && (!auto || (migrateMat s m n true []).2.2))
   | .lmig l n _ => tlRebindOk s l n none
   | .mmig m n u => ((s.mat m).ns == n || matFreeOfDs s m n none) && (migrateMat s m n u []).2.2
   | .mrec m u => (migrateMat s m (s.mat m).ns u []).2.2
@@ -707,7 +769,8 @@ def owner (s : Store) : Op → Bool
 /-- the addressed container exists -/
 def inRange (s : Store) : Op → Bool
   | .append l _ _ | .insert l _ _ _ | .setitem l _ _ | .setslice l _ _ _ | .extend l _ | .add l _ | .read l _ | .newtree l _
-  | .getslice l _ _ | .pop l _ | .remove l _ | .lclone l _ | .lmig l _ _ | .lrec l _ | .newtreeseed l _ | .readx l _ _ => decide (l < s.nTl)
+  | .getslice l _ _ | .pop l _ | .remove l _ | .lclone l _ | .lmig l _ _ | .lrec l _ | .newtreeseed l _ | .readx l _ _
+  | .lassign l _ _ => decide (l < s.nTl)
   | .dsaddN d _ | .dsaddL d _ | .dsaddM d _ | .dsnewlist d | .dsnewmat d | .dsnewns d | .dsattach d _ | .dsdetach d
   | .dsunify d _ | .dsread d _ _ _ => decide (d < s.nDs)
   | _ => true
